@@ -301,7 +301,12 @@ pub fn drive_random(s: &mut Session, rng: &mut Rng, runs: usize) {
                             }
                             1 => {
                                 let w = ['a', 'd', 'r'][rng.below(3) as usize];
-                                let t2 = (rng.log_uniform(0.3, 1500.0) / fs as f64) as f32;
+                                // a new time, now and then bit-identical to one of the current times
+                                let t2 = if rng.chance(1, 3) {
+                                    times[rng.below(3) as usize]
+                                } else {
+                                    (rng.log_uniform(0.3, 1500.0) / fs as f64) as f32
+                                };
                                 times[match w { 'a' => 0, 'd' => 1, _ => 2 }] = t2;
                                 s.set_time(w, t2);
                             }
@@ -422,6 +427,48 @@ pub fn drive_durations(s: &mut Session, rng: &mut Rng, runs: usize) {
         }
         s.tick();
         s.stats.add("duration_cases", 1);
+    }
+}
+
+/// a time changed in the middle of its own phase to a value that is bit-identical to another current
+/// time (and much longer / shorter than the old one): only the remaining part of the phase is rescaled
+pub fn drive_retime(s: &mut Session, rng: &mut Rng) {
+    let names = ['a', 'd', 'r'];
+    for &fs in [1000.0f32, 48000.0, 44100.0].iter() {
+        for w in 0..3usize {
+            for other in 0..3usize {
+                for longer in [true, false] {
+                    let short = (20.0 + rng.below(20) as f64) / fs as f64;
+                    let long = (300.0 + rng.below(300) as f64) / fs as f64;
+                    let (t_w, t_other) = if longer { (short, long) } else { (long, short) };
+                    s.start(fs);
+                    for k in 0..3usize {
+                        let t = if k == w { t_w } else if k == other { t_other } else { (60.0 / fs as f64) as f64 };
+                        s.set_time(names[k], t as f32);
+                    }
+                    s.set_sustain(0.4);
+                    s.gate_on();
+                    // get into phase w
+                    if w == 1 {
+                        s.run_phase(4000);
+                    }
+                    if w == 2 {
+                        s.run_phase(4000);
+                        s.run_phase(4000);
+                        s.tick();
+                        s.gate_off();
+                    }
+                    for _ in 0..(2 + rng.below(6)) {
+                        s.tick();
+                    }
+                    // the new value is the other time, bit for bit
+                    let t_new = if other == w { t_other } else { t_other };
+                    s.set_time(names[w], t_new as f32);
+                    s.run_phase(4000);
+                    s.tick();
+                }
+            }
+        }
     }
 }
 
@@ -559,7 +606,10 @@ pub fn record(driver: &str, seed: u64, thorough: bool, out: &mut Out) -> Stats {
     let mut s = Session::new(out);
     match driver {
         "random" => drive_random(&mut s, &mut rng, if thorough { 2500 } else { 260 }),
-        "durations" => drive_durations(&mut s, &mut rng, if thorough { 1500 } else { 120 }),
+        "durations" => {
+            drive_durations(&mut s, &mut rng, if thorough { 1500 } else { 120 });
+            drive_retime(&mut s, &mut rng);
+        }
         "cells" => drive_cells(&mut s, &mut rng, thorough),
         "extreme" => drive_extreme(&mut s, &mut rng, if thorough { 400 } else { 60 }),
         _ => {
